@@ -684,7 +684,7 @@ def near_sorted_perm(rng, n):
     return idx
 
 
-def lattice_regions(rng, shape):
+def lattice_regions(rng, shape, prefer0=False):
     """K >= 2 pairwise disjoint regions of `shape` whose file ranges interleave: the residues of a stride-s lattice
     along one dimension (a slow one when there is a choice); the other dimensions get a common random box so that
     the regions have the same extent there (equal-sized pieces are what coalescing code confuses)"""
@@ -694,6 +694,8 @@ def lattice_regions(rng, shape):
         return None
     slow = [d for d in cand if d < nd - 1]
     d0 = rng.choice(slow) if (slow and rng.chance(3, 4)) else rng.choice(cand)
+    if prefer0 and 0 in cand and rng.chance(3, 4):
+        d0 = 0
     n = shape[d0]
     s = rng.range(2, 3) if n >= 7 else 2
     base = rng.range(0, max(0, n - (2 * s + 1))) if n > 2 * s + 1 and rng.chance(1, 2) else 0
@@ -730,20 +732,22 @@ def unit_segments(st, ct, sd):
     return segs
 
 
-def gen_mix_program(rng, path, nprocs, fmt=None, hints='-'):
+def gen_mix_program(rng, path, nprocs, fmt=None, hints='-', focus=None):
+    """focus='recvarn': record variables only, mostly varn calls that append records with the lattice along the record
+    dimension (one segment per record, listed in any order) - the record count must be 1 + the highest record of ANY segment"""
     fmt = fmt or rng.choice([1, 2, 5])
     p = Prog(path, nprocs)
     p.all('create %s %d clobber %s' % (path, fmt, hints))
     nd = rng.range(1, 3)
     dims = [('d%d' % i, rng.range(5, 10) if i == 0 else rng.range(3, 8)) for i in range(nd)]
-    hasrec = rng.chance(1, 2)
+    hasrec = rng.chance(1, 2) or focus == 'recvarn'
     types = XT_ALL if fmt == 5 else XT_CLASSIC
     types = [t for t in types if t != 'char']
     vars_ = []
     for i in range(rng.range(1, 3)):
         k = rng.range(1, nd)
         vd = dims[:k] if rng.chance(2, 3) else [rng.choice(dims) for _ in range(k)]
-        isrec = hasrec and rng.chance(1, 2)
+        isrec = hasrec and (rng.chance(1, 2) or focus == 'recvarn')
         if isrec:
             vd = [('t', 0)] + vd[:2]
         vars_.append(Var('v%d' % i, rng.choice(types), vd, isrec))
@@ -756,9 +760,9 @@ def gen_mix_program(rng, path, nprocs, fmt=None, hints='-'):
     zero_varn = lambda v, mt, kind: '%s varn c %s %s c %s %s - -%s' % (kind, v.name, mt, lst([0] * len(v.dims)), lst([0] + [1] * (len(v.dims) - 1)), ' : ' if kind == 'put' else '')
     for rnd in range(rng.range(2, 4)):
         v = rng.choice(vars_)
-        nr = max(numrecs, rng.range(4, 8)) if v.isrec else numrecs
+        nr = (numrecs + rng.range(2, 5) if focus == 'recvarn' else max(numrecs, rng.range(4, 8))) if v.isrec else numrecs
         shape = shape_of(v, max(nr, 1))
-        regs = lattice_regions(rng, shape)
+        regs = lattice_regions(rng, shape, prefer0=(focus == 'recvarn'))
         if regs is None:
             continue
         # optionally cut every region once more along another dimension: more, smaller requests
@@ -776,7 +780,7 @@ def gen_mix_program(rng, path, nprocs, fmt=None, hints='-'):
             regs = more
         owner = [rng.below(nprocs) for _ in regs]
         mt = rng.choice(MT_FOR[v.xt])
-        mode = rng.choice(['varn', 'varn', 'iput', 'iput', 'bput', 'mixed'])
+        mode = rng.choice(['varn', 'varn', 'iput', 'iput', 'bput', 'mixed'] + (['varn'] * 6 if focus == 'recvarn' else []))
         coll = rng.chance(1, 2)
         cellvals = {}
         for st, ct, sd in regs:
